@@ -2,7 +2,10 @@ package absnfs
 
 // C18.conc — the limiters under concurrency; a part of check C18 run in the sched flavour.
 
-import "encoding/json"
+import (
+	"encoding/json"
+	"time"
+)
 
 func init() {
 	vRegister(&vCheck{
@@ -11,7 +14,7 @@ func init() {
 		rule: "stateless model checking of the real RateLimiter (source-instrumented, controlled scheduler, virtual clock): three threads call AllowOperation / AllowRequest on limiters whose refill rate is 0 (a bucket is a counter), one thread first lets the clean-up interval elapse so that the periodic clean-up of idle buckets runs inside some thread's call; afterwards the main thread drains what is left. Every choice sequence within D-bound 4 (thorough D-bound 6) is executed. Oracle: the number of admitted calls never exceeds the burst of the binding limiter (per-operation mount burst 2, readdir burst 5, per-IP burst 1; thorough: global with rate 0), no call blocks, no panic.",
 		assumptions: []string{"scheduling points are the lock operations of the limiters; plain memory accesses between them are atomic steps"},
 		run: func(c *vCtx) {
-			vSchedRunPlans(c, "C18", c18ConcScenarios(c.thorough()), []vPlan{{"D", 4}}, []vPlan{{"D", 6}})
+			vSchedRunBudget(c, "C18", c18ConcScenarios(c.thorough()), []vPlan{{"D", 4}}, []vPlan{{"D", 6}}, 15*time.Minute)
 		},
 		replay: func(c *vCtx, raw json.RawMessage) { vSchedReplay(c, "C18", c18ConcScenarios(true), raw) },
 	})
